@@ -19,13 +19,6 @@ import (
 // The same in-memory schema (loadWalkSchema) drives the tree exporter of harness/c18.go, so the Coq
 // tables and the encoding of the correspondence cases cannot drift apart.
 
-func repoRoot() string {
-	if r := os.Getenv("VERIF_REPO"); r != "" {
-		return r
-	}
-	return "/repo"
-}
-
 // field kinds (multiplicity and representation of a node-valued field)
 const (
 	wkOne   = iota // struct value (named or embedded): always exactly one; visited through &n.F
@@ -85,7 +78,7 @@ type WalkSchema struct {
 
 func parseJSPackage() (*token.FileSet, map[string]*ast.File, error) {
 	fset := token.NewFileSet()
-	dir := filepath.Join(repoRoot(), "js")
+	dir := filepath.Join(repoRoot, "js")
 	ents, err := os.ReadDir(dir)
 	if err != nil {
 		return nil, nil, err
